@@ -108,3 +108,16 @@ Theorem C13_writer_nofail : forall chunks,
   ew_write_all (mkW None [] 0) chunks = (mkW None (concat chunks) (lenN (concat chunks)), true).
 Proof. exact writer_nofail. Qed.
 Print Assumptions C13_writer_nofail.
+
+(* ---- DecodingReader.Skip consumes exactly like a read of the same size ---- *)
+From Ztyp Require Import Reader Extras ExtrasProofs.
+
+Theorem C13_skip_is_read :
+  forall st d k st' d', 0 < k ->
+  (dr_skip st d k = OK (st', d') <-> exists bs, dr_read st d k = OK (bs, st', d')).
+Proof. exact dr_skip_read. Qed.
+Print Assumptions C13_skip_is_read.
+
+Theorem C13_skip_short : forall st d k, 0 < k -> (dr_skip st d k = Err <-> dr_read st d k = Err).
+Proof. exact dr_skip_err_iff. Qed.
+Print Assumptions C13_skip_short.
